@@ -161,6 +161,10 @@ def run(prop, tier):
         cases = []
         for (cl, pl) in sh:
             cases.append(("single", cl, pl, None))
+        # the same streams with all clocks shifted down so that the earliest ones are exactly 0 (a clock of 0 is a clock like any other)
+        for (cl, pl) in (sh if tier != "quick" else shapes(4, (0, 1, 2), 1)):
+            if pl and any(b - a >= 2 and 0 in cl[a:b] for (a, b) in pl):
+                cases.append(("zero", cl, pl, None))
         # only the base model's OU[ / OU] delimit a region: every second event is a ?U[ / ?U] event of another model
         # (these streams are sorted, re-sorted and checked with -c, not emulated: the foreign events are not nested properly)
         for (cl, pl) in (shapes(3, (0, 1, 2), 2) if tier == "quick" else sh):
@@ -185,6 +189,8 @@ def run(prop, tier):
                 streams.append((obs.relpath("L", 10, 200), build_stream(cl, pl, 200, 1, head_region=True), False))
             elif kind == "foreign":
                 streams.append((obs.relpath("L", 10, 100), build_stream(cl, pl, 100, foreign=True), True))
+            elif kind == "zero":
+                streams.append((obs.relpath("L", 10, 100), [(m, c - BASE, p, j) for (m, c, p, j) in build_stream(cl, pl, 100)], True))
             else:
                 streams.append((obs.relpath("L", 10, 100), build_stream(cl, pl, 100), True))
             return streams
